@@ -157,12 +157,17 @@ def h_getitem(env, N, L, kind):
         sels.append(('mask%s' % ''.join('1' if b else '0' for b in m), np.array(m, dtype=bool), [i for i in range(L) if m[i]]))
     for idx in ([0], [L - 1, 0], [0, 0]):
         sels.append(('index%s' % idx, np.array(idx), idx))
+        sels.append(('indexlist%s' % idx, list(idx), idx))
+    for m in itertools.product((False, True), repeat=L):
+        sels.append(('masklist%s' % ''.join('1' if b else '0' for b in m), [bool(b) for b in m], [i for i in range(L) if m[i]]))
+    sels.append(('npint', np.int64(L - 1), [L - 1]))
+    sels.append(('emptylist', [], []))
     for name, sel, rows in sels:
         res = env.run(lambda: o[sel])
         ok = b_not(res.raised)
         if res.value is not None:
             v = res.value
-            if isinstance(sel, (int, np.integer)):
+            if isinstance(sel, (int, np.integer)) and not isinstance(sel, (bool, np.bool_)):
                 k = rows[0]
                 ok = AND([ok, arr_eq(v.g, g[k]), eq(v.p, p[k]), isinstance(v, M.pa.PauliMonomial if kind == 'poly' else M.pa.Pauli)])
                 if kind == 'poly':
